@@ -519,6 +519,9 @@ def finish(ctx):
     if ctx.replay_case is not None:
         # a replay re-runs one recorded case; it must not overwrite the evidence of a full run
         epath = os.path.join(OUT, 'replays', ctx.prop, 'last_replay_evidence.json')
+    elif ctx.prop.startswith('X'):
+        # extra specification modules are not registered properties: keep their evidence apart
+        epath = os.path.join(OUT, 'evidence', 'extra', ctx.prop + '.json')
     else:
         epath = os.path.join(OUT, 'evidence', ctx.prop + '.json')
     os.makedirs(os.path.dirname(epath), exist_ok=True)
